@@ -182,6 +182,7 @@ def exception_hierarchy(repo=None):
         "OverflowError": ["ArithmeticError"], "ArithmeticError": ["Exception"],
         "ZeroDivisionError": ["ArithmeticError"], "struct.error": ["Exception"],
         "UnicodeDecodeError": ["ValueError"], "ConnectionError": ["OSError"],
+        "NameError": ["Exception"], "UnboundLocalError": ["NameError"],
     }
     attrs = {}
     for name, node in m.classes.items():
